@@ -1411,7 +1411,8 @@ class Interp:
                 return a.view((a.shape[1], a.shape[0]), lambda i, j: (j, i),
                               lambda i, j: (True, (j, i)))
         if attr == 'dtype':
-            return Opaque('dtype:' + a.dtype)
+            return SObj('dtype', {'kind': {'int': 'i', 'real': 'f', 'complex': 'c', 'bool': 'b', 'fp': 'f'}[a.dtype],
+                                  'name': a.dtype})
         if attr == 'flat':
             return ArrFlat(a)
         return PyMethod(a, attr)
